@@ -3,9 +3,13 @@ import os, subprocess, tempfile
 from concurrent.futures import ThreadPoolExecutor
 from . import build
 
-ASAN_ENV = {"ASAN_OPTIONS": "detect_leaks=1:abort_on_error=0:exitcode=99:allocator_may_return_null=1:detect_stack_use_after_return=0",
+ASAN_ENV = {"ASAN_OPTIONS": "detect_leaks=1:abort_on_error=0:exitcode=99:allocator_may_return_null=0:max_allocation_size_mb=256:detect_stack_use_after_return=0",
             "UBSAN_OPTIONS": "print_stacktrace=1:halt_on_error=1:exitcode=98",
             "LSAN_OPTIONS": "exitcode=97"}
+
+def is_oom(res):
+    """a crash entry caused by an allocation whose size the input itself announced (outside every claim)."""
+    return (not isinstance(res, str)) and any(k in res[2] for k in ("allocation-size-too-big", "out-of-memory", "exceeds maximum supported size", "std::bad_alloc", "std::length_error"))
 
 def _tmpdir():
     d = os.path.join(build.BUILD, "tmp", str(os.getpid()))
